@@ -192,9 +192,10 @@ def hypothesis_worker(args):
         if deadline_ts and time.time() > deadline_ts:
             state["stop"] = True
         if state["stop"]:
-            stats.extra["budget_stop"] += 1
-            data.draw(st.just(0))
-            return
+            # out of budget: end this shard (an exception is the only way to leave Hypothesis' loop early; it is
+            # re-raised identically when Hypothesis re-runs the example, and swallowed below)
+            stats.extra["budget_stop"] = 1
+            raise _Abort()
         try:
             case = gen(make_chooser(data), tier)
             res = _check(prop, case, stats)
@@ -216,7 +217,7 @@ def hypothesis_worker(args):
     try:
         test()
     except Exception:
-        if not stats.harness_error:
+        if not stats.harness_error and not state["stop"]:
             stats.harness_error = traceback.format_exc()
     from pv import lib
     lib.cleanup_tmp()
@@ -364,7 +365,10 @@ def main(argv):
 
     plan = prop.plan(tier)   # {"exhaustive": [chunks], "streams": {name: n_examples}, "shards": k, "budget_s": s}
     nproc = int(os.environ.get("PV_PROCS", "16"))
-    budget = float(os.environ.get("PV_BUDGET_S", plan.get("budget_s", 0)) or 0)
+    # wall-clock budget for the generated streams: far above what the unchanged tree needs (quick checks take under
+    # a minute), it only matters on trees where a defect makes the library slower and slower (e.g. a list that grows
+    # across calls); shards then stop generating and whatever was found so far is reported
+    budget = float(os.environ.get("PV_BUDGET_S", plan.get("budget_s", 240 if tier == "quick" else 7200)) or 0)
     deadline_ts = (t0 + budget) if budget else 0
     jobs_e = [(pid, tier, ch) for ch in plan.get("exhaustive", [])]
     shards = plan.get("shards", nproc)
